@@ -39,7 +39,7 @@ func (x *Exec) spinCheck() bool {
 	x.sigStep[h] = x.steps
 	if seen {
 		for _, t := range x.threads {
-			if !t.done && (t.en == nil || t.en()) && t.lastRun <= prev {
+			if !t.done && !t.frozen && (t.en == nil || t.en()) && t.lastRun <= prev {
 				x.sigSeen[h] = 1
 				return false
 			}
